@@ -3,19 +3,31 @@
 There is no MPI runtime in the sandbox: the real enspara code runs on the thread-simulated mpi4py of
 harness/mpisim.py (one thread per rank, bulk-synchronous collectives).  Each case fixes a world size
 P and a vector of trajectory lengths; trajectory t is handed to rank t mod P exactly as the loaders do."""
-import os, shutil, tempfile
+import os, shutil, sys, tempfile
 from fractions import Fraction as F
 import numpy as np
 import cluster_common as cc
-from core import cn, cz, cq, cb, clist, copt
+from core import cn, cz, cq, cb, clist, copt, VERIF
 import mpisim
+sys.path.insert(0, os.path.join(VERIF, "translator"))
+import tr_mpi
 
 PID = "C14"
 PROPS_FILE = "Props/C14.v"
 WORLD_SIZE = 2            # makes bootstrap install the simulator; the world size is set per case (run_ranks(P, ...))
-MODEL_TARGETS = ["Model/Cluster.vo", "Model/Mpi.vo"]
-CASE_HEADER = ("From Coq Require Import List ZArith QArith.\nFrom EV Require Import Cluster Mpi.\n"
+MODEL_TARGETS = ["Model/Cluster.vo", "Model/Mpi.vo", "Base/MpiGenBase.vo", "Gen/MpiGen.vo"]
+GEN_FILES = ["Gen/MpiGen.v"]
+CASE_HEADER = ("From Coq Require Import List ZArith QArith.\nFrom EV Require Import Cluster Mpi MpiGenBase MpiGen.\n"
                "Import ListNotations.\n")
+
+
+def translate(repo):
+    """round 3: the index arithmetic and decision logic of enspara/mpi/ops.py, _kcenters_iteration_mpi, the MPI branches
+    of kcenters, ctr_ids_mpi and the MPI branches of the PAM update are regenerated from the source (Gen/MpiGen.v);
+    Proof/MpiGenProofs.v proves the generated definitions equal to Model/Mpi.v"""
+    return tr_mpi.translate(repo)
+
+
 SHARD = 40
 CASE_TIMEOUT = 20.0     # seconds per case for all ranks together (a hang is reported, not waited out)
 RULE = ("world size P in 1..6, 1..12 trajectories of length 1..5 (P <= number of trajectories; dedicated streams: every rank owns "
@@ -31,12 +43,18 @@ RULE = ("world size P in 1..6, 1..12 trajectories of length 1..5 (P <= number of
         "ctr_ids_mpi for every global index and every (trajectory, frame), assemble_striped_array, assemble_striped_ragged_array; "
         "io = load_h5_as_striped / load_npy_as_striped with strides 1..3.  Data: small integer coordinates (ties frequent) and "
         "random floats (tie-free).  The model runs on the implementation's own distance matrix; per-rank centre pairs, labels, "
-        "distances, every index map and every reduction are compared exactly (means to 1e-12).  non-trivial := P >= 2 and at "
+        "distances, every index map and every reduction are compared exactly (means to 1e-12); the definitions regenerated "
+        "from the source (Gen/MpiGen.v: gen_convert_local_indices, gen_assemble_striped_(ragged_)array, gen_striped_array_max/mean, "
+        "gen_randind, gen_ctr_ids_mpi_flat, gen_cim_pair, gen_kcenters_mpi) are evaluated on the same inputs next to the hand "
+        "model.  non-trivial := P >= 2 and at "
         "least 2 trajectories and (for clustering) >= 2 centres")
 TRUSTED = cc.TRUSTED + [
     "harness/mpisim.py: collectives are functions of the vector of per-rank contributions (MPI semantics, trusted); "
     "no real MPI library, no deadlock/buffer-typing behaviour of one",
-    "rank 0's RandomState.randint draws are recorded and replayed in the model (k-medoids proposals)"]
+    "rank 0's RandomState.randint draws are recorded and replayed in the model (k-medoids proposals)",
+    "translator/tr_mpi.py + Base/MpiGenBase.v (round 3): the reading of NumPy / RaggedArray / mpi4py calls as the vocabulary "
+    "np_arange, nslice (Base/PySlice.v), nput_slice, ra_make, ra_where_first, bcast, allgather, allreduce_*, ...; statements "
+    "that are array glue (buffer allocation, dtype casts, asserts, logging, the md.Trajectory wrapping) are pinned as text"]
 ASSUMPTIONS = ["world size <= number of trajectories, every trajectory has >= 1 frame (the loaders require it)",
                "MPI warm start: init_centers is a non-empty list of distinct frames of the data (every rank passes the same list)",
                "owner ranks handed to convert_local_indices are < world size",
@@ -357,7 +375,9 @@ def run_io(c):
         ra.save(h5, ra.RaggedArray(np.concatenate(rows), lengths=lens) if len(lens) > 1 else rows[0])
         files = []
         for t, row in enumerate(rows):
-            fn_ = os.path.join(d, "x%02d.npy" % t)
+            # names whose lexicographic order differs from the caller's order (a loader that sorts
+            # or globs the list itself would attribute stripes to the wrong files)
+            fn_ = os.path.join(d, "x%d_%02d.npy" % ((7 * t + 3) % 10, t))
             np.save(fn_, row)
             files.append(fn_)
 
@@ -444,6 +464,17 @@ def coq_check(c, out):
                      P, lens, clist([r["dst"] for r in rk], _ql, "(list Q)"), _ql(r0["Dd"])),
                  "CaseLib.opt_eqb Qeq_bool (striped_max %s) (Some %s)" % (
                      clist([r["dst"] for r in rk], _ql, "(list Q)"), cq(F(r0["smax"])))]
+        # round 3: the definitions regenerated from the source (Gen/MpiGen.v) next to the hand model
+        parts += ["CaseLib.opt_eqb CaseLib.nl_eqb (gen_convert_local_indices %s %s %s) (Some %s)" % (P, lens, _pairs(r0["ctr"]), _nl(r0["ci"])),
+                  "CaseLib.opt_eqb CaseLib.nl_eqb (gen_assemble_striped_ragged_array 0%%nat %s %s %s) (Some %s)" % (
+                      P, lens, clist([r["asg"] for r in rk], _nl, "(list nat)"), _nl(r0["A"])),
+                  "CaseLib.opt_eqb CaseLib.ql_eqb (gen_assemble_striped_ragged_array 0%%Q %s %s %s) (Some %s)" % (
+                      P, lens, clist([r["dst"] for r in rk], _ql, "(list Q)"), _ql(r0["Dd"])),
+                  "CaseLib.opt_eqb Qeq_bool (gen_striped_array_max %s) (Some %s)" % (
+                      clist([r["dst"] for r in rk], _ql, "(list Q)"), cq(F(r0["smax"])))]
+        if c["kind"] == "kc":
+            parts.append("ds_eqb (gen_kcenters_mpi (Dm M) %s %s %s %s %s) %s" % (
+                P, lens, cc.nclu_term(c), cc.cutoff_term(c), cb(bool(c.get("ti"))), exp))
         return "(let M := %s in %s)" % (cc.D_term(out), " && ".join("(%s)" % p for p in parts))
     if c["kind"] == "ops":
         r0 = rk[0]
@@ -463,6 +494,18 @@ def coq_check(c, out):
             "CaseLib.list_eqb opair_eqb (map (ctr_pair_mpi %s %s) %s) (map Some %s)" % (P, lens, _pairs(tf), _pairs(r0["ids_pair"])),
             "CaseLib.opt_eqb CaseLib.nl_eqb (assemble_flat %s (stripes %s %s)) (Some %s)" % (P, P, lens, _nl(r0["lens"])),
             "CaseLib.opt_eqb CaseLib.zl_eqb (assemble 0%%Z %s %s (scatter %s %s %s)) (Some %s)" % (
+                P, lens, P, lens, clist(c["vals"], cz, "Z"), clist(r0["asm"], cz, "Z")),
+            # round 3: the definitions regenerated from the source (Gen/MpiGen.v) next to the hand model
+            "CaseLib.opt_eqb Qeq_bool (gen_striped_array_max %s) (Some %s)" % (sc, cq(F(r0["smax"]))),
+            "match gen_striped_array_mean %s %s with Some v => CaseLib.q_close (1 # 1000000000000) v %s | None => false end" % (
+                P, sc, cq(F(r0["smean"]))),
+            "CaseLib.list_eqb opair_eqb (map (gen_randind %s %s) (seq 0 %s)) (map Some %s)" % (
+                P, _nl(c["ns"]), cn(total), _pairs(r0["randind"])),
+            "CaseLib.opt_eqb CaseLib.nl_eqb (gen_convert_local_indices %s %s %s) (Some %s)" % (P, lens, _pairs(pairs), _nl(r0["convert"])),
+            "CaseLib.list_eqb opair_eqb (map (gen_ctr_ids_mpi_flat %s %s) (seq 0 %s)) (map Some %s)" % (P, lens, cn(n), _pairs(r0["ids_flat"])),
+            "CaseLib.list_eqb opair_eqb (map (gen_cim_pair %s %s) %s) (map Some %s)" % (P, lens, _pairs(tf), _pairs(r0["ids_pair"])),
+            "CaseLib.opt_eqb CaseLib.nl_eqb (gen_assemble_striped_array %s (stripes %s %s)) (Some %s)" % (P, P, lens, _nl(r0["lens"])),
+            "CaseLib.opt_eqb CaseLib.zl_eqb (gen_assemble_striped_ragged_array 0%%Z %s %s (scatter %s %s %s)) (Some %s)" % (
                 P, lens, P, lens, clist(c["vals"], cz, "Z"), clist(r0["asm"], cz, "Z")),
         ]
         return " && ".join("(%s)" % p for p in parts)
@@ -640,6 +683,9 @@ def tags(c, out):
             t.append("pam-draws" if out.get("draws") else "pam-no-draws")
     if c["kind"] == "io":
         t.append("stride=%d" % c["stride"])
+        names = ["x%d_%02d" % ((7 * k + 3) % 10, k) for k in range(len(c["lens"]))]
+        if names != sorted(names):
+            t.append("io-file-names-not-sorted")
     return t
 
 
@@ -647,7 +693,7 @@ ESSENTIAL_TAGS = ["ops-all-negative", "kc", "kcw", "hybrid", "ops", "io", "P=1",
                   "every-rank-owns-one-trajectory", "P>=5-every-rank-owns-one-trajectory",
                   "equal-local-lengths-unequal-global", "P>=4-equal-local-lengths-unequal-global",
                   "three-schedules", "arrival-orders-varied", "last-arriver-varied",
-                  "tie-free", "ties", "ti", "centres-on-several-ranks", "pam-draws"]
+                  "tie-free", "ties", "ti", "centres-on-several-ranks", "pam-draws", "io-file-names-not-sorted"]
 
 
 def search(rng, tier):
